@@ -57,6 +57,13 @@ class SObj:
         self.cls, self.oid = cls, oid
 
 
+class CondList:
+    """Result of a generator whose yields are conditional: items = [(condition, value)] in program order.  Element k of the
+    generated sequence is the k-th item whose condition holds."""
+    def __init__(self, items):
+        self.items = list(items)
+
+
 class _Return(Exception):
     pass
 
@@ -292,7 +299,9 @@ class Interp:
         fr.is_gen = any(isinstance(n, (ast.Yield, ast.YieldFrom)) for n in ast.walk(node))
         env2, pc2 = self.block(node.body, env, fr, pc)
         if fr.is_gen:
-            return [v for _, v in fr.yields]
+            if all(z3.is_true(c) for c, _ in fr.yields):
+                return [v for _, v in fr.yields]
+            return CondList(fr.yields)
         rets = list(fr.returns)
         if env2 is not None and not z3.is_false(z3.simplify(pc2)):
             rets.append((pc2, None, self._heap_snapshot()))
@@ -309,6 +318,30 @@ class Interp:
 
     def _heap_snapshot(self):
         return {oid: {k: (list(v) if isinstance(v, list) else v) for k, v in at.items()} for oid, at in self.ctx.heap.items()}
+
+    def _call_closure(self, clo, args, kwargs, pc):
+        node = clo.node
+        env = dict(clo.env)
+        params = [p.arg for p in node.args.args]
+        if len(args) + len(kwargs) != len(params):
+            raise NotEncodable('closure call arity')
+        for p, a in zip(params, args):
+            env[p] = a
+        env.update(kwargs)
+        fr = Frame(clo.fr.fn, clo.fr.globs)
+        env2, pc2 = self.block(node.body, env, fr, pc)
+        rets = list(fr.returns)
+        if env2 is not None and not z3.is_false(z3.simplify(pc2)):
+            rets.append((pc2, None, self._heap_snapshot()))
+        if not rets:
+            if env2 is None:
+                raise _Dead()
+            return None
+        heap = rets[-1][2]
+        for c, _, h in reversed(rets[:-1]):
+            _, heap = self.merge_env(c, {}, h, {}, heap)
+        self.ctx.heap = heap
+        return self.merge_many([(c, v) for c, v, _ in rets])
 
     def merge_many(self, rets):
         val = rets[-1][1]
@@ -395,11 +428,46 @@ class Interp:
         if isinstance(s, ast.Expr):
             if isinstance(s.value, ast.Constant):
                 return env, pc
+            if isinstance(s.value, ast.YieldFrom):
+                src = s.value.value
+                if isinstance(src, ast.Call) and self.eval(src.func, env, fr, pc) is range:
+                    args = []
+                    for a_ in src.args:
+                        if isinstance(a_, ast.Starred):
+                            args.extend(self.eval(a_.value, env, fr, pc))
+                        else:
+                            args.append(self.eval(a_, env, fr, pc))
+                    if any(is_sym(a) for a in args):
+                        if len(args) != 1:
+                            a0 = ctx.lift_int(args[0])
+                            a1 = ctx.lift_int(args[1])
+                            st = ctx.lift_int(args[2]) if len(args) == 3 else ctx.int_val(1)
+                            ctx.raises.append((z3.And(pc, st == 0), 'ValueError'))
+                            zero = ctx.int_val(0)
+                            live = lambda v: z3.Or(z3.And(st > zero, v < a1), z3.And(st < zero, v > a1))
+                            v = a0
+                            for k in range(ctx.unwind):
+                                fr.yields.append((z3.simplify(z3.And(pc, live(v))), SInt(v)))
+                                v = v + st
+                            ctx.side.append(z3.And(pc, live(v)))      # unwinding assertion
+                            return env, pc
+                        n = ctx.lift_int(args[0])
+                        for k in range(ctx.unwind):
+                            fr.yields.append((z3.simplify(z3.And(pc, n > ctx.int_val(k))), k))
+                        ctx.side.append(z3.And(pc, n > ctx.int_val(ctx.unwind)))     # unwinding assertion
+                        return env, pc
+                    for x in range(*args):
+                        fr.yields.append((z3.simplify(pc), x))
+                    return env, pc
+                it = self.eval(src, env, fr, pc)
+                if isinstance(it, CondList):
+                    fr.yields.extend((z3.simplify(z3.And(pc, c)), v) for c, v in it.items)
+                else:
+                    fr.yields.extend((z3.simplify(pc), v) for v in it)
+                return env, pc
             if isinstance(s.value, ast.Yield):
                 v = self.eval(s.value.value, env, fr, pc)
-                if not z3.is_true(z3.simplify(pc)):
-                    raise NotEncodable('conditional yield')
-                fr.yields.append((pc, v))
+                fr.yields.append((z3.simplify(pc), v))
                 return env, pc
             self.eval(s.value, env, fr, pc)
             return env, pc
@@ -500,6 +568,9 @@ class Interp:
         if isinstance(s, ast.Try):
             return self._try(s, env, fr, pc)
         if isinstance(s, (ast.Import, ast.ImportFrom, ast.Global)):
+            return env, pc
+        if isinstance(s, ast.FunctionDef):
+            env[s.name] = _Closure(s, env, fr)
             return env, pc
         raise NotEncodable('statement %s' % type(s).__name__)
 
@@ -949,6 +1020,8 @@ class Interp:
             return ctx.extra_calls[f](self, args, kwargs, pc)
         if isinstance(f, _Bound):
             return self._call_function(f.fn, [f.obj] + args, kwargs, pc)
+        if isinstance(f, _Closure):
+            return self._call_closure(f, args, kwargs, pc)
         sym = any(_has_sym(a) for a in args) or any(_has_sym(v) for v in kwargs.values())
         if f is math.ldexp:
             r, ovf = ctx.ldexp(args[0], args[1], pc)
@@ -1003,6 +1076,13 @@ class Interp:
                 c = self.compare(ast.Lt() if f is min else ast.Gt(), v, r)
                 r = self.merge(ctx.lift_bool(c), v, r) if is_sym(c) else (v if c else r)
             return r
+        if f is list and len(args) == 1 and isinstance(args[0], CondList):
+            return args[0]
+        if f is len and isinstance(args[0], CondList):
+            tot = ctx.int_val(0)
+            for c, _ in args[0].items:
+                tot = tot + z3.If(c, ctx.int_val(1), ctx.int_val(0))
+            return SInt(tot)
         if f is len:
             v = args[0]
             if isinstance(v, SObj):
@@ -1093,6 +1173,12 @@ class Interp:
             elif c == 'd':
                 out.append(SFloat(z3.fpBVToFP(word, F64)))
         return tuple(out)
+
+
+class _Closure:
+    """A nested def: evaluated by inlining with the defining environment visible (read-only)."""
+    def __init__(self, node, env, fr):
+        self.node, self.env, self.fr = node, env, fr
 
 
 class _Bound:
